@@ -299,7 +299,7 @@ def build_for(pid, tier):
     O += miner_cron.build_for(pid, tier)
     if pid in ('C15', 'C01', 'C03'):
         D = miner_cron.build_dispute(pid, tier)
-        O += D if (pid == 'C15' or tier != 'quick') else D[:1]
+        O += D if tier != 'quick' else D[:1]
     return O
 
 
